@@ -15,8 +15,8 @@ import (
 	"os/exec"
 	"path/filepath"
 	"regexp"
-	"strconv"
 	"sort"
+	"strconv"
 	"strings"
 
 	"github.com/CrowdStrike/csproto/prototest"
